@@ -41,7 +41,7 @@ def normalise_source(src: str, modname: str) -> tuple[str, dict]:
     tree = ast.parse(src)
     st = normalize.normalise_module(tree, modname)
     for _ in range(3):
-        if not alpha.normalise(tree, modname):
+        if not alpha.normalise(tree, modname, strict=True):
             break
     st["temporaries"] = normalize.normalise_temporaries(tree, modname)
     for _ in range(3):
